@@ -225,3 +225,4 @@ BOUNDS = dict(
     "KronSum, BlockDiag with multiplicities and non-square blocks, Transpose, Adjoint, Sliced, annotated, nested)", offsets="all -n < k < n",
     algorithms="Exact(), Auto(), omitted", large="rule-less tridiagonal operators of size 100, 101, 130, 200, 205, 320 with symbolic bands and "
     "offsets {0, +-1, +-99, +-100, +-(n-1), 105} (subset in quick)", values="all payloads symbolic")
+BOUNDS["added"] = 'sums in which one operator object occurs twice; exact probing of an operator that returns its operand (or a view) followed by probing of an unrelated operator of the same size'
